@@ -169,6 +169,9 @@ func (p *RevProfile) genFault(t *Tape, sc *RevScenario, kind string) Fault {
 		if p.BigBodyPct > 0 && t.Bool(12) {
 			f.Param += 1000 // with an endless error page
 		}
+		if t.Bool(20) {
+			f.Param += 10000 * (1 + t.Choose(5)) // with a Retry-After hint (seconds / HTTP date, near / far / past)
+		}
 	case FRedirect:
 		f.Param = []int{302, 301, 303, 307, 308}[t.Weighted(40, 15, 15, 15, 15)]
 	case FConnErr:
@@ -464,6 +467,20 @@ func GenRevScenario(t *Tape, p *RevProfile) *RevScenario {
 // released the certificate, a responder went down, a new CRL was published).
 func (p *RevProfile) cloneWorld(t *Tape, sc *RevScenario, o *World, k int) *World {
 	w := &World{ID: o.ID + k, Purpose: o.Purpose, Entry: o.Entry, HasST: o.HasST, STFrac: o.STFrac, ST: o.ST, CloneOf: o, StaleSig: o.StaleSig}
+	// the next validation may supply another signing time (another signature
+	// of the same signer is being verified): none, an hour earlier, an hour later
+	stBaseOf := stBase
+	if o.HasST {
+		stBaseOf = o.ST
+	}
+	switch t.Weighted(60, 14, 13, 13) {
+	case 1:
+		w.HasST, w.ST = false, time.Time{}
+	case 2:
+		w.HasST, w.ST = true, stBaseOf.Add(-time.Hour)
+	case 3:
+		w.HasST, w.ST = true, stBaseOf.Add(time.Hour)
+	}
 	faulty := sc.Config != 0
 	// sometimes the next validation is for a sibling of the leaf: another
 	// certificate of the same CA with the same URLs, whose serial number the
